@@ -18,7 +18,7 @@ import BfeVerif.C42.Model
           p<tt>.<vvvv>.<n>.<k>  header announcing n bytes followed by only k < n bytes (must be last)
           z<hex>           stray bytes (fewer than 5; must be last)
         then EOF.
-  result = `d=<delivered hex> e=<first error> q=<records accepted> a=<hex delivered by 4 further Reads> r=<their errors>`
+  result = `d=<delivered hex> e=<first error> q=<records accepted> a=<hex delivered by 4 further Reads> r=<their errors> w=<first fatal alert the peer received, or none>`
 
   The model is run on a *symbolic* byte stream: the body of R_i is `be64(i) ++ [typ] ++ plaintext` zero-padded to
   the real body length of the suite, decrypt = the suite family's length pre-checks (`decryptFam`) in front of the ideal
@@ -189,11 +189,12 @@ def run' (op impl : String) : Option Ans := do
   let more := if r.err == some Err.noprogress || r.err.isNone then (([] : Bytes), "-")
     else let m := readMore (decryptFam fam (idealDec (symEncF fam) sent)) vers 4 r; (m.1, ",".intercalate (m.2.map renderErr))
   let model := "d=" ++ hexField r.out ++ " e=" ++ renderErr r.err ++ " q=" ++ toString r.seq ++
-    " a=" ++ hexField more.1 ++ " r=" ++ more.2
+    " a=" ++ hexField more.1 ++ " r=" ++ more.2 ++
+    " w=" ++ (match alertSent r with | some a => toString a | none => "none")
   -- spec oracle on the implementation's result
   let verdict :=
     match impl.splitOn " " with
-    | [d, e, qq, a, rr] =>
+    | [d, e, qq, a, rr, ww] =>
       match bytesOfHex (String.ofList (d.toList.drop 2)), bytesOfHex (String.ofList (a.toList.drop 2)) with
       | some dl, some al =>
         let all := appBytes sent
@@ -211,6 +212,9 @@ def run' (op impl : String) : Option Ans := do
         --      k = number of leading wire frames that are o0, o1, … in order
         else if dl.length > (appBytes (sent.take (honestRun wireS 0))).length then "FAIL:tampered-record-delivered"
         else if ((String.ofList (qq.toList.drop 2)).toNat?.getD 0) > honestRun wireS 0 then "FAIL:tampered-record-accepted"
+        -- (d) a failure the server detected itself is announced to the peer by a fatal alert
+        else if (firstErr.startsWith "local:" && firstErr != "local:100" || firstErr == "badvers" || firstErr == "oversize")
+            && ww == "w=none" then "FAIL:failure-without-alert"
         -- (c) the error is sticky: every later Read returns it again
         else if rr != "r=-" && laterErrs.any (fun x => x != firstErr) then "FAIL:error-not-sticky"
         else if e == "e=eof" && dl != upToClose then
